@@ -105,6 +105,11 @@ def hardCore (nb : BitVec 8) (nal : Bool) (st : HState) (now : BitVec 64) : HSta
       ({ st with step := (st.step + 1#64) &&& 4095#64 },
         join nb nal st.time st.node ((st.step + 1#64) &&& 4095#64))
 
+/-- ids of successive calls for the successive values of `now` (whatever clock produced them) -/
+def coreRun (nb : BitVec 8) (nal : Bool) : HState → List (BitVec 64) → List (BitVec 64)
+  | _, [] => []
+  | st, now :: nows => (hardCore nb nal st now).2 :: coreRun nb nal (hardCore nb nal st now).1 nows
+
 /-- `now` as `Generate` computes it from the accessor word -/
 def hardNow (c : Cfg) (epoch w : BitVec 64) : BitVec 64 := accMs c.nowAcc w - epoch
 
